@@ -406,19 +406,26 @@ def inlineRun (total : Bool) (st0 : St) (f : Fn) (actuals : List (Option Nat)) (
   let produced := c.2.2.flatMap (·.outs)
   (renameFinals (fun id => !total || produced.contains id) st2 finalsO desired, finalsO)
 
+/-- does `call_inline` adapt its operands like `call` (`_input_to_ir_value`: literals become initializers)?
+    Pinned /repo: yes (commit 06b8334); before it a literal operand made the cloner raise (finding D20i). -/
+def inlineAdapts : Bool := true
+
 def doInline (total : Bool) (fns : List Fn) (st : St) (fi : Nat) (args : List Arg) (outs : Option (List String))
     (pfx : String) (attrs : List (String × AVal)) : St :=
   match fns[fi]? with
   | none => fail st "no-such-function"
   | some f =>
-    if !(args.all isRef) then fail st "inline-literal-arg"
+    if !inlineAdapts && !(args.all isRef) then fail st "inline-literal-arg"
     else if args.length > f.formals.length then fail st "too-many-inputs"
     else if outsMismatch outs f then
       fail st "outputs-mismatch"
     else
       let desired := outs.map (fun o => o.map (qualifyValue st.cur))
       let st0 := if pfx = "" then st else pushScope st pfx
-      let rr := inlineRun total st0 (resolveFn (effectiveAttrs total f attrs) f) (resolveArgs st0 args).2 desired
+      -- operands: values as they are; Python literals promoted to initializers when `inlineAdapts`
+      -- (`resolveArgs` leaves the state alone when every operand is a value)
+      let ra := resolveArgs st0 args
+      let rr := inlineRun total ra.1 (resolveFn (effectiveAttrs total f attrs) f) ra.2 desired
       let st4 := if pfx = "" then rr.1 else popScope rr.1
       { st4 with handles := st4.handles ++ rr.2 }
 
